@@ -22,6 +22,7 @@ class Script:
         self.choices = []  # chosen index per choice point
         self.menus = []  # menu size per choice point
         self.labels = []
+        self.prefix_is_replay = False  # True when the whole run repeats a recorded execution (replay), not an exploration step
 
     def choose(self, n: int, label: str = "") -> int:
         pos = len(self.choices)
@@ -148,6 +149,7 @@ def explore(run, max_dev=None, max_execs=None, stats=None):
 
 def replay(run, choices):
     s = Script(choices)
+    s.prefix_is_replay = True
     _CURRENT[0] = s
     try:
         out = run(s)
